@@ -1,3 +1,4 @@
+import Ixd.Loop
 /-! scratch: executable transcription of types.Index (types/manifest.go) for a differential run -/
 namespace Ixd
 
@@ -23,42 +24,26 @@ structure Index where
   children  : List Desc := []
   deriving DecidableEq, Repr
 
-def swapRemove (l : List Desc) (i : Nat) : List Desc :=
-  match l.getLast? with
-  | none => l
-  | some x => (l.set i x).dropLast
+/-- RmDesc, children loop: drop every child with the digest -/
+def rmChildStep (dig : Nat) (_ : Unit) (c : Desc) : Unit × Act Desc :=
+  if c.dig = dig then ((), .drop) else ((), .keep)
 
-def rmChildLoop (dig : Nat) : Nat → List Desc → List Desc
-  | 0, l => l
-  | mi+1, l =>
-    let l' := match l[mi]? with
-      | some c => if c.dig = dig then swapRemove l mi else l
-      | none => l
-    rmChildLoop dig mi l'
-
-def rmMainLoop (d : Desc) (tag subj : Nat) : Nat → Bool → List Desc → List Desc
-  | 0, _, l => l
-  | mi+1, found, l =>
-    match l[mi]? with
-    | none => rmMainLoop d tag subj mi found l
-    | some e =>
-      if d.dig ≠ 0 ∧ e.dig = d.dig then
-        if tag ≠ 0 then
-          if found ∧ (e.ann.isNil ∨ e.ann.tag = tag) then
-            rmMainLoop d tag subj mi true (swapRemove l mi)
-          else if ¬ e.ann.isNil ∧ e.ann.tag = tag then
-            rmMainLoop d tag subj mi true (l.set mi { e with ann := { e.ann with tag := 0 } })
-          else rmMainLoop d tag subj mi true l
-        else rmMainLoop d tag subj mi found (swapRemove l mi)
-      else if d.dig = 0 ∧ ¬ e.ann.isNil ∧ ((tag ≠ 0 ∧ e.ann.tag = tag) ∨ (subj ≠ 0 ∧ e.ann.subj = subj)) then
-        rmMainLoop d tag subj mi found (swapRemove l mi)
-      else rmMainLoop d tag subj mi found l
+/-- RmDesc, main loop body; the threaded state is Go's `found` -/
+def rmMainStep (d : Desc) (tag subj : Nat) (found : Bool) (e : Desc) : Bool × Act Desc :=
+  if d.dig ≠ 0 ∧ e.dig = d.dig then
+    if tag ≠ 0 then
+      if found ∧ (e.ann.isNil ∨ e.ann.tag = tag) then (true, .drop)
+      else if ¬ e.ann.isNil ∧ e.ann.tag = tag then (true, .set { e with ann := { e.ann with tag := 0 } })
+      else (true, .keep)
+    else (found, .drop)
+  else if d.dig = 0 ∧ ¬ e.ann.isNil ∧ ((tag ≠ 0 ∧ e.ann.tag = tag) ∨ (subj ≠ 0 ∧ e.ann.subj = subj)) then (found, .drop)
+  else (found, .keep)
 
 def rmDesc (ix : Index) (d : Desc) : Index :=
   let tag := if d.ann.isNil then 0 else d.ann.tag
   let subj := if d.ann.isNil then 0 else d.ann.subj
-  let ch := if tag = 0 ∧ d.dig ≠ 0 then rmChildLoop d.dig ix.children.length ix.children else ix.children
-  { manifests := rmMainLoop d tag subj ix.manifests.length false ix.manifests, children := ch }
+  let ch := if tag = 0 ∧ d.dig ≠ 0 then (descLoop (rmChildStep d.dig) ix.children.length () ix.children).2 else ix.children
+  { manifests := (descLoop (rmMainStep d tag subj) ix.manifests.length false ix.manifests).2, children := ch }
 
 /-- first loop of AddDesc; `mi` is the Go loop variable + 1 -/
 def addUntagLoop (d : Desc) (tag subj : Nat) : Nat → Index → Index
